@@ -120,7 +120,7 @@ class Ops:
         if not hasattr(self, "_tag_ids"):
             self._tag_ids = {}
         key = (kind, getattr(node, "lineno", 0), getattr(node, "col_offset", 0), getattr(node, "end_col_offset", 0),
-               tuple(getattr(self.interp, "site_stack", ())), tuple(f.qualname for f in getattr(self.interp, "call_stack", ())))
+               tuple(getattr(self.interp, "site_stack", ())), tuple(f.qualname for f in getattr(self.interp, "call_stack", ())), getattr(self, "_tag_variant", None))
         if key not in self._tag_ids:
             self._tag_n = getattr(self, "_tag_n", 0) + 1
             self._tag_ids[key] = self._tag_n
@@ -501,6 +501,11 @@ class Ops:
         for x, y in ((ta, tb), (tb, ta)):
             if x.size_of == "C" and y.poly is not None and y.poly.const_value() == 0 and y.is_py:
                 # emptiness test of the column axis: not regarded as zero-column dependent (assumption)
+                r = r.but(z=True)
+                zero_ok = True
+            elif x.is_py and x.poly is not None and y.is_py and y.poly is not None and y.poly.const_value() == 0 and x.poly.terms and len(x.poly.terms) == 1 \
+                    and all(str(sy) in ("m", "n") for sy, _ in next(iter(x.poly.terms)) ) and next(iter(x.poly.terms.values())) > 0:
+                # numel() (= m·n, a product of sizes) against 0: "some axis is empty" — the same emptiness tests, asked at once
                 r = r.but(z=True)
                 zero_ok = True
         return r.but(kind="pybool" if (ta.is_py and tb.is_py) else r.kind, dtype="Bool", deg=F0 if scale_free else None,
